@@ -233,15 +233,20 @@ def runModel (rev : Bool) (f : Bytes) : String :=
   resStr (if rev then FileScan.reverseScan realBuf realMax f else FileScan.forwardScan realMax f)
 
 /-- Verdict for a file case. `lines` = the file's lines (independent of any scanning), `rawMax` = the longest
-raw line (with its '\r'), `startsNL` = the file starts with '\n'. -/
+raw line (with its '\r'), `startsNL` = the file starts with '\n'.
+Known findings are matched by input class AND failure shape:
+  F2: the observation is `err toolong` and (forward) some raw line ≥ 65536 = bufio.MaxScanTokenSize, (reverse) some raw
+      line + 1 ≥ 32768 = maxTokenSize/2 (below that `C20_reverse_lines` guarantees success);
+  F1: reverse, the file starts with '\n', and the observation is exactly the expected lines without the first one. -/
 def fileVerdict (rev nl : Bool) (lines : List Bytes) (rawMax : Nat) (startsNL : Bool) (obs : String) : Bool × String :=
   if rev && !nl && !lines.isEmpty then (true, "n/a: reverse over a file without trailing newline")
   else
     let want := fmtLines true (if rev then lines.reverse else lines)
     if obs == want then (true, "")
-    else if (!rev && rawMax ≥ realMax) || (rev && rawMax + 1 ≥ realMax / 2) then
+    else if obs == "err toolong" && ((!rev && rawMax ≥ realMax) || (rev && rawMax + 1 ≥ realMax / 2)) then
       (false, s!"KF:F2 line of {rawMax} bytes; want {want.take 200}")
-    else if rev && startsNL then (false, s!"KF:F1 leading empty line; want {want.take 200}")
+    else if rev && startsNL && obs == fmtLines true (lines.drop 1).reverse then
+      (false, s!"KF:F1 leading empty line; want {want.take 200}")
     else (false, s!"want {want.take 300}")
 
 def handleFile (ts : List String) (obs : String) : String × Bool × String :=
